@@ -24,8 +24,9 @@ rm -f $WT/$PKG/zz_demo_test.go
 git checkout -q -- . ; git clean -qfd -e out
 echo "== my check against the patched /repo"
 cd /verif
+trap 'git -C /repo checkout -q -- . 2>/dev/null' EXIT TERM INT
 git -C /repo apply $MD/patch.diff 2>/dev/null || ( cd /repo && patch -p1 --fuzz=3 --no-backup-if-mismatch < $MD/patch.diff >/dev/null && echo "(applied with fuzz)" ) || { echo PATCH-DOES-NOT-APPLY-TO-REPO; git -C /repo checkout -q -- .; exit 7; }
-timeout 1500 ./check $PROP "$@" 2>&1 | grep -E "VIOLATION|class=|KNOWN|ERROR|runs \(" | cut -c1-260 | head -8
+timeout 1300 ./check $PROP "$@" 2>&1 | grep -E "VIOLATION|class=|KNOWN|ERROR|runs \(" | cut -c1-260 | head -8
 echo "check exit: ${PIPESTATUS[0]}"
 git -C /repo checkout -q -- .
 find /repo -name "*.orig" -newer /verif/tools/try_seeded.sh -delete 2>/dev/null
